@@ -172,6 +172,8 @@ def gen_history(rng, maxlen):
             ops.append("10,%s" % enc_target(t))
         elif r < 0.82:
             ops.append("11,%s" % enc_target(t))
+            if rng.random() < 0.3:
+                ops.append("17,%s" % enc_target(t))       # an object compressed to nothing has no storage
         elif r < 0.88:
             if rng.random() < 0.25:
                 t2 = t if rng.random() < 0.5 else (t[0], t[1][: rng.randrange(0, len(t[1]) + 1)])
@@ -190,6 +192,8 @@ def gen_history(rng, maxlen):
         elif r < 0.98:
             # t = ValueType::k / Value tmp{k[, size]}; every kind except ValuePtr
             ops.append("20,%s,%d,%d" % (enc_target(t), rng.choice([0, 2, 3, 4, 5, 6, 7, 8, 9, 10]), rng.randrange(30)))
+            if rng.random() < 0.6:
+                ops.append("17,%s" % enc_target(t))       # the getters on an empty value of that kind
         elif r < 0.99:
             ops.append("21,%s,%s,%d" % (enc_target(t), enc_target(t2), rng.randrange(8)))
         elif r < 0.995:
